@@ -55,6 +55,8 @@ def values(r, tier):
     return out
 
 
+FULL_WIDTH = str.maketrans('0123456789.,-', '０１２３４５６７８９．，－')
+HALF = {'，': ',', '．': '.', '－': '-'}
 CASED_SAMPLE = [0]
 
 
@@ -85,7 +87,7 @@ def check(m, cu, mt, q, st, en, val, dec, th, form, ctx):
         mech = 'literal-split'
         # shape of the split, for the known-finding classifier
         if all(e.start >= st and e.end <= en for e in r):
-            cuts = [q[e.end + 1] for e in r[:-1] if e.end + 1 <= en]
+            cuts = [HALF.get(q[e.end + 1], q[e.end + 1]) for e in r[:-1] if e.end + 1 <= en]
             if cuts and all(c == th for c in cuts):
                 mech = 'literal-split-at-every-grouping-mark'
             elif cuts and all(c == dec for c in cuts):
@@ -96,9 +98,9 @@ def check(m, cu, mt, q, st, en, val, dec, th, form, ctx):
         if (e.start, e.end) != (st, en):
             mech = 'literal-wrong-span'
             # shape of the wrong span, for the known-finding classifier
-            if e.end == en and st < e.start <= en and q[e.start - 1] == th and th != dec:
+            if e.end == en and st < e.start <= en and HALF.get(q[e.start - 1], q[e.start - 1]) == th and th != dec:
                 mech = 'entity-starts-after-a-grouping-mark'
-            elif e.end == en and st < e.start <= en and q[e.start - 1] == dec:
+            elif e.end == en and st < e.start <= en and HALF.get(q[e.start - 1], q[e.start - 1]) == dec:
                 mech = 'entity-starts-after-the-decimal-mark'
         elif e.type_name != ('percentage' if pct else 'number'):
             mech = 'wrong-type'
@@ -166,6 +168,12 @@ def run(job, ctx):
                 check(nm, cu, 'NumberModel', q, st, st + len(s) - 1, val, dec, th, form, ctx)
             if not form.startswith('negative'):
                 check(pm, cu, 'PercentModel', s + '%', 0, len(s), val, dec, th, form + '%', ctx)
+            if cu in ('zh-cn', 'ja-jp', 'en-us') and i % 5 == 0 and 'spaced' not in form:
+                # the same literal in full-width digits and marks (the usual way of writing in CJK text)
+                fw = s.translate(FULL_WIDTH)
+                check(nm, cu, 'NumberModel', fw, 0, len(fw) - 1, val, dec, th, form + ',full-width', ctx)
+                if not form.startswith('negative'):
+                    check(pm, cu, 'PercentModel', fw + '％', 0, len(fw), val, dec, th, form + ',full-width%', ctx)
 
 
 def plan(tier, seed):
